@@ -511,6 +511,9 @@ func init() {
 			if drv.IsLibraryPanic(out.Stderr) && sc.Kind == "closed" {
 				return drv.Result{Verdict: drv.Violated, Clause: "scrape", FindingKey: "C16/scrape-crash", Detail: "process died around a scrape while the stream was closed: " + drv.PanicLine(out.Stderr)}
 			}
+			if drv.IsLibraryPanic(out.Stderr) && sc.Kind == "scrape-across-close" && strings.Contains(out.Stderr, "metric.(*metricCollector).Collect") {
+				return drv.Result{Verdict: drv.Violated, Clause: "scrape", FindingKey: "C16/scrape-crash", Detail: "process died inside a scrape that overlapped a close of the stream: " + drv.PanicLine(out.Stderr)}
+			}
 			return drv.Result{Verdict: drv.Inconclusive, Detail: "child died: " + drv.PanicLine(out.Stderr), Foreign: []string{"process death: " + drv.PanicLine(out.Stderr)}}
 		},
 	})
